@@ -148,6 +148,16 @@ fn fx_case(ops: &[Op]) -> (String, serde_json::Value) {
      json!({"kind": "fx", "ops": format!("{:?}", ops), "analyze": an}))
 }
 
+fn fx_raw_case(bytes: &[u8]) -> (String, serde_json::Value) {
+    use asm::effects::{bytes_contains_any, Effects};
+    let b = bytes.to_vec();
+    let answers: Vec<String> = match catch_unwind(move || (0..64u8).map(|fl| bytes_contains_any(&b, Effects::from_bits_retain(fl))).collect::<Vec<bool>>()) {
+        Ok(v) => v.into_iter().map(|x| coq_bool(x).to_string()).collect(),
+        Err(_) => vec![],            // a panic: no answers at all
+    };
+    (format!("CFxRaw {} [{}]", blist(bytes), answers.join("; ")), json!({"kind": "fx_raw", "bytes": bytes}))
+}
+
 pub fn run_fx(a: &Args) {
     let all = all_ops();
     let mut out = Out::new("From EB Require Import Corr.RunAsm.", "asm_case", &["asm_mismatches", "asm_spec_failures"]);
@@ -188,6 +198,15 @@ pub fn run_fx(a: &Args) {
         push(&mut out, fx_case(&ops), "subset");
         ops.reverse();
         push(&mut out, fx_case(&ops), "subset_rev");
+    }
+    // arbitrary byte strings: truncated Push at the end, lone opcodes, random bytes (the scan runs on untrusted bytecode)
+    for n in 0..=9usize { let mut v = vec![0x82u8, 0x01]; v.extend((0..n).map(|i| 0x80 + i as u8)); push(&mut out, fx_raw_case(&v), "raw_truncated_push"); }
+    push(&mut out, fx_raw_case(&[0x01]), "raw_truncated_push");
+    for i in 0..(a.count as u64 / 4) {
+        let mut rng = Rng::for_case(a.seed, 16, i);
+        let len = rng.range(0, 24) as usize;
+        let bytes: Vec<u8> = (0..len).map(|_| if rng.chance(1, 3) { 0x01 } else if rng.chance(1, 3) { *rng.pick(&[0x80u8, 0x81, 0x82, 0x83, 0x30, 0x31]) } else { rng.next() as u8 }).collect();
+        push(&mut out, fx_raw_case(&bytes), "raw_random");
     }
     for i in 0..a.count as u64 {
         let mut rng = Rng::for_case(a.seed, 15, i);
